@@ -60,6 +60,8 @@ pub struct WireLog {
     /// raw shred bytes sent by anyone (deduplicated), for the observer blockstore
     pub shred_bytes: Vec<Arc<Vec<u8>>>,
     shred_seen: BTreeSet<u64>,
+    /// raw skip certificates seen (sent or delivered), by slot: validated lazily by the safety oracle
+    pub skip_cert_bytes: BTreeMap<u64, Vec<Arc<Vec<u8>>>>,
 }
 
 pub struct Cluster {
@@ -70,6 +72,8 @@ pub struct Cluster {
     pub crashed: BTreeSet<usize>,
     pub log: Arc<Mutex<WireLog>>,
     pub diss: DissKind,
+    /// repair-requester endpoints of the Byzantine validators (to read answers to probes)
+    pub byz_repair_eps: BTreeMap<usize, VerifNet<RepairRequest, RepairResponse>>,
 }
 
 fn slot_leader(n: usize, slot: u64) -> usize {
@@ -98,7 +102,16 @@ impl Cluster {
                         if d.to.1 == d.from.1 {
                             match de_consensus(&d.bytes) {
                                 Some(ConsensusMessage::Vote(v)) => w.votes_sent.push((d.t, d.from.1, mvote_of(&v))),
-                                Some(ConsensusMessage::Cert(c)) => w.certs_sent.push((d.t, d.from.1, mcert_of(&c))),
+                                Some(ConsensusMessage::Cert(c)) => {
+                                    let m = mcert_of(&c);
+                                    if m.kind == CK::Skip {
+                                        let e = w.skip_cert_bytes.entry(m.slot).or_default();
+                                        if e.len() < 4 {
+                                            e.push(d.bytes.clone());
+                                        }
+                                    }
+                                    w.certs_sent.push((d.t, d.from.1, m))
+                                }
                                 None => {}
                             }
                         }
@@ -125,17 +138,28 @@ impl Cluster {
                     let mut w = l2.lock().unwrap();
                     match de_consensus(&d.bytes) {
                         Some(ConsensusMessage::Vote(v)) => w.votes_delivered.push((d.t, d.to.1, mvote_of(&v))),
-                        Some(ConsensusMessage::Cert(c)) => w.certs_delivered.push((d.t, d.to.1, mcert_of(&c))),
+                        Some(ConsensusMessage::Cert(c)) => {
+                            let m = mcert_of(&c);
+                            if m.kind == CK::Skip {
+                                let e = w.skip_cert_bytes.entry(m.slot).or_default();
+                                if e.len() < 8 && !e.iter().any(|b| **b == *d.bytes) {
+                                    e.push(d.bytes.clone());
+                                }
+                            }
+                            w.certs_delivered.push((d.t, d.to.1, m))
+                        }
                         None => {}
                     }
                 }
             }));
         }
         let mut nodes = BTreeMap::new();
+        let mut byz_repair_eps = BTreeMap::new();
         for v in 0..n {
             if byz.contains(&v) {
                 // endpoints exist so that traffic addressed to them is accepted and dropped
                 let _: CNet = net.endpoint(Ep::All2All, v);
+                byz_repair_eps.insert(v, net.endpoint::<RepairRequest, RepairResponse>(Ep::RepairReq, v));
                 continue;
             }
             let a2a = TrivialAll2All::new(ep.validators().to_vec(), net.endpoint::<ConsensusMessage, ConsensusMessage>(Ep::All2All, v));
@@ -156,7 +180,7 @@ impl Cluster {
             };
             nodes.insert(v, NodeHandle { id: v, pool, cancel, task });
         }
-        Self { ep, net, nodes, byz, crashed: BTreeSet::new(), log, diss }
+        Self { ep, net, nodes, byz, crashed: BTreeSet::new(), log, diss, byz_repair_eps }
     }
 
     pub fn crash(&mut self, v: usize) {
